@@ -1020,6 +1020,48 @@ def run(repo, rep, tier):
                                     f"the position is the rank among the bins that happen to be filled, not the offset in the axis' dense index "
                                     f"range, so a gap between filled bins shifts every later row/column against the axis ranges",
                                     stmt=f"grid position {ast.unparse(ix)} from a sparse enumeration")
+    # ---------------- R13.17: a loop index runs over the bins of the histogram it indexes (outer axis vs the nested, inner axis)
+    r17 = rep.rule("R13.17", "in the 2-D views a loop variable that indexes the bins of the outer/inner histogram is bounded by that same histogram's bin count", floor=2)
+    import copy as _cp
+    for f in grid_fns:
+        once2 = {}
+        for n in walk_local_stmt(f.node):
+            if isinstance(n, ast.Assign) and len(n.targets) == 1 and isinstance(n.targets[0], ast.Name):
+                once2.setdefault(n.targets[0].id, []).append(n.value)
+
+        class _Res(ast.NodeTransformer):
+            def __init__(self, depth=0):
+                self.depth = depth
+
+            def visit_Name(self, n):
+                if isinstance(n.ctx, ast.Load) and len(once2.get(n.id, [])) == 1 and n.id not in f.params and self.depth < 3:
+                    return _Res(self.depth + 1).visit(_cp.deepcopy(once2[n.id][0]))
+                return n
+
+        def nesting(e):
+            """how many `.bins[...]` / `.values[...]` levels deep the histogram is that e talks about"""
+            e = _Res().visit(_cp.deepcopy(e))
+            return sum(1 for x in ast.walk(e) if isinstance(x, ast.Subscript) and isinstance(x.value, ast.Attribute) and x.value.attr in ("bins", "values"))
+
+        for n in walk_local_stmt(f.node):
+            if not (isinstance(n, ast.For) and isinstance(n.target, ast.Name) and isinstance(n.iter, ast.Call) and isinstance(n.iter.func, ast.Name)
+                    and n.iter.func.id == "range" and n.iter.args):
+                continue
+            bound = n.iter.args[-1] if len(n.iter.args) <= 2 else n.iter.args[1]
+            if not any(isinstance(x, ast.Attribute) for x in ast.walk(_Res().visit(_cp.deepcopy(bound)))):
+                continue                 # a bound that is not taken from a histogram
+            db = nesting(bound)
+            var = n.target.id
+            for sub in ast.walk(n):
+                if isinstance(sub, ast.Subscript) and isinstance(sub.value, ast.Attribute) and sub.value.attr in ("bins", "values") \
+                        and any(isinstance(x, ast.Name) and x.id == var for x in ast.walk(sub.slice)):
+                    du = nesting(sub.value.value) if not isinstance(sub.value.value, ast.Name) else nesting(sub.value.value)
+                    ok = du == db
+                    r17.ob(ok, f"{f.qualname}: `{ast.unparse(sub)[:50]}` indexed by `{var}` bounded by `{ast.unparse(bound)[:30]}`")
+                    if not ok:
+                        rep.finding("R13.17", f, n, f"`{var}` runs up to `{ast.unparse(bound)[:40]}`, a bin count of the {'outer' if db == 0 else 'nested'} histogram, but indexes "
+                                    f"`{ast.unparse(sub)[:60]}`, the bins of the {'outer' if du == 0 else 'nested'} one: with different numbers of x and y bins part of the "
+                                    f"grid is never filled in (or the loop runs past the last bin)", stmt=f"loop over {var}: bound and indexed bins from different axes")
     # ---------------- R13.12: the length of a view is never left to the rounding of np.arange
     # np.arange(start, stop, step) has ceil((stop - start) / step) elements, computed in floating point.  With float arguments
     # whose exact quotient is an integer n (edges low..high in steps of the bin width) the result has n or n + 1 elements
